@@ -82,7 +82,22 @@ def o_footprint_upwind(case):
         domain=dict(nx=nx, ny=ny, xmax=xmax, ymax=ymax, nz=case["nz"], modes=[nx, ny], ref_lat=rlat, ref_lon=rlon, halo=case.get("halo")),
         towers=[dict(name="T", lat=float(tlat), lon=float(tlon), z_m=case["zm"])],
         met=met, solver=dict(closure=case["closure"], footprint=True, precision="double")))
+    if case.get("rerun"):
+        # a sweep over wind directions on ONE configuration object: run it, assign the next direction, run it again
+        want = cfg.met.wind_dir
+        first = (case["wd"] + 137.0) % 360.0
+        if isinstance(want, list):
+            keep_ = want[met_index]
+            want[met_index] = first
+            run_bldfm_single(cfg, cfg.towers[0], met_index=met_index)
+            want[met_index] = keep_
+        else:
+            cfg.met.wind_dir = first
+            run_bldfm_single(cfg, cfg.towers[0], met_index=met_index)
+            cfg.met.wind_dir = want
     r = run_bldfm_single(cfg, cfg.towers[0], met_index=met_index)
+    if r["params"]["wind_dir"] != (cfg.met.wind_dir[met_index] if isinstance(cfg.met.wind_dir, list) else cfg.met.wind_dir):
+        return fail("C08/params-dir", "the result's reported wind direction is not the configured one", None, case["wd"], r["params"]["wind_dir"], 0)
     f = np.asarray(r["flx"], dtype=float)
     X, Y = np.asarray(r["grid"][0]), np.asarray(r["grid"][1])
     tx, ty = cfg.towers[0].x, cfg.towers[0].y
@@ -145,7 +160,10 @@ def run(rng, tier, deep):
     nd = budget(tier, deep, 18, 180)
     off = float(rng.uniform(0, 360))
     for k in range(nd):
-        run_oracle(st, o_footprint_upwind, upwind_case(rng, wd=(off + k * 360.0 / nd) % 360.0))
+        c = upwind_case(rng, wd=(off + k * 360.0 / nd) % 360.0)
+        if k % 4 == 1:
+            c["rerun"] = True
+        run_oracle(st, o_footprint_upwind, c)
     # the four cardinal directions EXACTLY (0.0 is falsy in Python), 360.0, and a negative / wrapped equivalent
     for wd in (0.0, 90.0, 180.0, 270.0, 360.0, -90.0, 450.0)[: (7 if (deep or tier == "thorough") else 5)]:
         run_oracle(st, o_footprint_upwind, upwind_case(rng, wd=wd))
